@@ -120,6 +120,7 @@ func runC09(p *core.Program, r *core.Report) {
 	r.Rule("C09.elem-assert", "a type assertion on an element of the collection's own enumeration names a type the enumerator yields", 10)
 	r.Rule("C09.sentinel", "the header of the order ring is not taken for an element: a method that compares the key of header.link_prev/link_next with a key it was given, or stores into that entry, has ruled the header (the empty collection) out first", 20)
 	r.Rule("C09.read-only", "look-ups (Contains*, Get, Size, IsEmpty) store into no field of the collection, of an entry, or into a bucket", 20)
+	r.Rule("C09.clear", "emptying a collection zeroes its count on every path that drops the buckets", 8)
 	r.Rule("C09.no-reentry", "every operation returns: no method of the linked collections calls, with its mutex held, a same-receiver method that acquires it again", 10)
 	noReentryRule(p, r, "C09.no-reentry", c09Types)
 	r.Rule("C09.sort", "Sort: collect, sort.Sort, clear, re-insert all at the tail", 12)
@@ -155,6 +156,7 @@ func runC09(p *core.Program, r *core.Report) {
 		h.checkTableInstall()
 		h.checkSentinel()
 		h.checkReadOnly()
+		h.checkClear()
 	}
 }
 
@@ -175,6 +177,7 @@ func runC12(p *core.Program, r *core.Report) {
 	r.Rule("C12.key-domain", "operations of one collection agree on which keys exist: no lookup/removal rejects a key the insertion path stores", 1)
 	r.Rule("C12.ctor", "every constructor leaves the collection with at least one bucket, whatever initial capacity it is given (lookups take the hash modulo the table length)", 4)
 	r.Rule("C12.index", "bucket indices are non-negative (unsigned modulo or masked hash)", 8)
+	r.Rule("C12.clear", "emptying a collection zeroes its count on every path that drops the buckets", 2)
 	r.Rule("C12.read-only", "look-ups (Contains*, Get, Size, IsEmpty) store into no field of the collection, of an entry, or into a bucket: an enumeration in progress is not disturbed by queries", 6)
 	r.Rule("C12.serial", "IntIntMap.ToBytes ~ ToObject agree on the layout", 1)
 	modes := hmapModes(p)
@@ -200,6 +203,7 @@ func runC12(p *core.Program, r *core.Report) {
 		h.checkEntryCache()
 		h.checkTableInstall()
 		h.checkReadOnly()
+		h.checkClear()
 	}
 	c12Serial(p, r)
 	c12EnumWalk(p, r)
